@@ -1,5 +1,5 @@
 SPECIFICATION Spec
-CONSTANTS Ups = {"u1", "u2"} NC = 2 NU = 2 ClientEnd = "rst" UpEnd = "fin"
+CONSTANTS Ups = {"u1", "u2"} NC = 2 NU = 2 ClientEnd = "rst" UpEnd = "fin" DownCanHalfClose = TRUE ClientWaitsForEOF = FALSE
 INVARIANTS UpExact DownOrdered HalfCloseSeen
 PROPERTY Cleanup
 CHECK_DEADLOCK FALSE
